@@ -31,6 +31,7 @@ ALPHABET = {
     "quick": {1: ALL_KINDS, 2: ["c", "c_pp", "c_gen", "c_nx", "c_dir", "s", "s_bad", "o"]},
     "thorough": {1: ALL_KINDS, 2: ALL_KINDS, 3: ["c", "c_gen", "c_nx", "s", "o"]},
 }
+GOOD_KINDS = frozenset(["c", "s", "o"])
 RUN_TIMEOUT = 60
 
 
@@ -762,8 +763,10 @@ def run(ctx):
             for ks in sorted(set(i[0] for i in items), key=lambda s: (len(s), sorted(s))):
                 if not any(m <= ks for m in minimal):
                     minimal.append(ks)
+            # under an injected fault, a deviation that also shows with good inputs only does not depend on the inputs
+            anyin = fc != "none" and any(ks <= GOOD_KINDS for ks, _, _, _ in items)
             for ks, spec, fault, detail in items:
-                attributed.append((next(m for m in minimal if m <= ks), mode, fc, spec, fault, detail))
+                attributed.append((frozenset(["any"]) if anyin else next(m for m in minimal if m <= ks), mode, fc, spec, fault, detail))
         modes_of, faults_of = {}, {}
         for attr, mode, fc, spec, fault, detail in attributed:
             modes_of.setdefault(attr, set()).add(mode)
